@@ -384,6 +384,34 @@ def run_block(ev: ConstEval, stmts):
             raise Undecidable(type(st).__name__)
 
 
+class _Return(Exception):
+    def __init__(self, value):
+        self.value = value
+
+
+def run_function(prog: Program, func: FuncInfo, env):
+    """Evaluate a small pure function (assignments, if/else, return) on constant arguments."""
+    ev = ConstEval(prog, func.module, env)
+
+    def block(stmts):
+        for st in stmts:
+            if isinstance(st, ast.Expr) and isinstance(st.value, ast.Constant):
+                continue
+            if isinstance(st, ast.Return):
+                raise _Return(ev.ev(st.value) if st.value is not None else None)
+            if isinstance(st, ast.Assign) and len(st.targets) == 1 and isinstance(st.targets[0], ast.Name):
+                ev.env[st.targets[0].id] = ev.ev(st.value)
+            elif isinstance(st, ast.If):
+                block(st.body if ev.ev(st.test) else st.orelse)
+            else:
+                raise Undecidable(type(st).__name__)
+    try:
+        block(func.node.body)
+    except _Return as r:
+        return r.value
+    return None
+
+
 def local_tables(prog: Program, func: FuncInfo):
     """Evaluate, in order, the simple `NAME = <closed constant expr>` statements at the top
     level of a function body.  Returns {name: value}."""
